@@ -10,6 +10,8 @@ func TestC02(t *testing.T) { runProp(t, "C02") }
 func TestC03(t *testing.T) { runProp(t, "C03") }
 func TestC05(t *testing.T) { runProp(t, "C05") }
 func TestC06(t *testing.T) { runProp(t, "C06") }
+func TestC08(t *testing.T) { runProp(t, "C08") }
+func TestC09(t *testing.T) { runProp(t, "C09") }
 
 // TestReplay re-runs one saved case through the property's oracle, bypassing rapid.
 func TestReplay(t *testing.T) {
